@@ -104,6 +104,24 @@ impl Group for C07 {
                 "revoke 0",
                 "close2 1899033614 0 1 1 22 1 0 0 0 0 0 0",
             ]),
+            // allowlist at SIGNING time: upfront script X allowlisted at setup, removed before the close ->
+            // the close to X must be refused (both entry points); re-added -> signed
+            v(&[
+                "policy 0 4 2016 1000000001 10000 1000 16777216 0 253 333333 222000 0",
+                "allow 10",
+                "setup 1 3000000 0 6 7 1 10 0 1",
+                "cp 0 0 0 2999000 0 0 0",
+                "hold 0 0 2999000 0 0 0 1",
+                "revoke 0",
+                "cp 1 0 0 1999000 1000000 0 0",
+                "hold 1 0 1999000 1000000 0 0 1",
+                "revoke 1",
+                "allow",
+                "close2 1998000 1000000 1 10 22 0 0 1 20 22 0 0",
+                "close1 2 1 2 1000000 20 22 0 0 1998000 10 22 0 0",
+                "allow 10",
+                "close2 1998000 1000000 1 10 22 0 1 1 20 22 0 0",
+            ]),
             // fundee: holder value must be within epsilon of both commitments
             v(&[
                 "policy 0 4 2016 1000000001 10000 1000 16777216 0 253 333333 222000 0",
@@ -227,13 +245,24 @@ impl Group for C07 {
         // ---- closing requests ----
         let nclose = 2 + rng.below(4);
         for j in 0..nclose {
+            // the allowlist changes between open and close (and between closes): scripts are added and
+            // removed, in particular the upfront shutdown script -- what counts is the content at signing time
+            if (j == 0 && rng.chance(1, 2)) || rng.chance(1, 6) {
+                match rng.below(4) {
+                    0 if upfront != 0 => allow.retain(|s| *s != upfront),
+                    1 => { let s = pick(rng, &[10, 11, 12, 20]); if !allow.contains(&s) { allow.push(s) } }
+                    2 => { if !allow.is_empty() { let k = rng.below(allow.len() as u64) as usize; allow.remove(k); } }
+                    _ => allow.clear(),
+                }
+                ops.push(format!("allow {}", allow.iter().map(|s| s.to_string()).collect::<Vec<_>>().join(" ")).trim_end().to_string());
+            }
             // destination of the holder output
-            let hd = match rng.below(10) {
+            let hd = match if upfront != 0 && rng.chance(1, 2) { 9 } else { rng.below(10) } {
                 0 | 1 | 2 => { let s = pick(rng, &[1, 2, 3, 4, 5, 6]); Dest { sid: s, spend: true, allow: allow.contains(&s) } }
                 3 => { let s = pick(rng, &[1, 2, 3, 4]); Dest { sid: s, spend: false, allow: allow.contains(&s) } }
                 4 | 5 => { let s = pick(rng, &[10, 11, 12]); Dest { sid: s, spend: false, allow: allow.contains(&s) } }
                 6 => { let s = pick(rng, &[20, 21, 22]); Dest { sid: s, spend: false, allow: false } }
-                _ if upfront != 0 => Dest { sid: upfront, spend: up_spend, allow: allow.contains(&upfront) },
+                _ if upfront != 0 => Dest { sid: upfront, spend: up_spend && rng.chance(3, 4), allow: allow.contains(&upfront) },
                 _ => { let s = pick(rng, &[1, 2, 3, 4]); Dest { sid: s, spend: true, allow: allow.contains(&s) } }
             };
             let cd = { let s = pick(rng, &[20, 21, 22, 10]); Dest { sid: s, spend: false, allow: allow.contains(&s) } };
